@@ -37,8 +37,7 @@ contract(E + "ErrorExtraction.get_fields_for_exception", props=["C03", "C07"], c
 
 contract(T + "write_traceback", props=["C07", "C13", "C03"], cycle="extract", decreases="ite(_extract_fields, 2, 0)",
          types={"logger": "Opt[role:ILogger]", "exc_info": "Opt[tuple]", "_extract_fields": "bool"}, returns="none",
-         requires=[("current-ok", "cur_ok()"), ("exc-info-is-a-triple", "implies(exc_info is not None, len(seq(exc_info)) == 3)"),
-                   ("module-fact: TRACEBACK_MESSAGE.message_type", "TB().message_type == 'eliot:traceback'")],
+         requires=[("current-ok", "cur_ok()"), ("exc-info-is-a-triple", "implies(exc_info is not None, len(seq(exc_info)) == 3)")],
          modifies=LOGGING_FRAME + ["field:$uuid_str"], ghosts={"R": "seqe", "R1": "seqe"}, ghost_defaults={"R1": "empty_log()"},
          after={"ErrorExtraction.get_fields_for_exception#0": [("R1", "R")], "log_message#0": [("R", "R1 + [E] + R")]},
          ensures=LOGGING_EFFECT + [
@@ -49,8 +48,5 @@ contract("iface::TracebackModule.format_exception", params=["self", "typ", "exce
          notes="traceback.format_exception (the no-I/O copy): returns a list of str, never raises", modifies=[])
 
 # facts established by module initialisation code (trusted here, cross-checked natively by drivers/facts_check.py)
-from pyvc.spec import SPECFUNS
-specfun("TB", [], "lookup_global('eliot/_traceback.py', 'TRACEBACK_MESSAGE')")
-MODULE_FACTS = [
-    ("eliot/_traceback.py:TRACEBACK_MESSAGE", "TB().message_type == 'eliot:traceback'"),
-]
+from pyvc.spec import module_fact
+module_fact("eliot/_traceback.py:TRACEBACK_MESSAGE", "X.message_type == 'eliot:traceback'")
